@@ -207,6 +207,32 @@ func check(args []string) int {
 		return 3
 	}
 	_ = ast.NewIdent
+	if len(spec.Stubs) > 0 {
+		// a stub whose target is misspelled would silently never fire: warn, listing candidates with the same name
+		all := ssautil.AllFunctions(prog)
+		names := map[string]bool{}
+		for f := range all {
+			names[f.String()] = true
+		}
+		for _, st := range spec.Stubs {
+			if names[st[0]] {
+				continue
+			}
+			fmt.Fprintf(os.Stderr, "warning: stub target %q matches no function of the program\n", st[0])
+			short := st[0][strings.LastIndex(st[0], ".")+1:]
+			n := 0
+			for f := range all {
+				p := f.Pkg
+				if p == nil && f.Origin() != nil {
+					p = f.Origin().Pkg
+				}
+				if f.Name() == short && n < 12 && p != nil && strings.Contains(st[0], p.Pkg.Path()) {
+					fmt.Fprintf(os.Stderr, "         candidate: %s\n", f.String())
+					n++
+				}
+			}
+		}
+	}
 
 	var kf []KnownFinding
 	if b, err := os.ReadFile(filepath.Join(*verif, "known_findings.json")); err == nil {
